@@ -206,7 +206,7 @@ def check_C12(ctx):
 
 
 def check_C14(ctx):
-    ctx.rule = ("design: Lifecycle.tla over all switch vectors (SwitchesExact, ProcessedByOnce, OnParseOnce); implementation: (a) each input run under ALL 2^5 vectors of "
+    ctx.rule = ("design: Lifecycle.tla over all switch vectors (SwitchesExact, ProcessedByOnce, OnParseOnce); implementation: (a) each input run under ALL 2^6 vectors (names, producers, dwarf, preserve_code_transform, only_stable_features, synthetic names; six of them again with strict_validate off) of "
                 "{names, producers, dwarf, preserve_code_transform, only_stable} - the whole finite switch space - and TLC compares the section inventories of every pair of vectors that "
                 "differ in one switch (Trace_Config.tla), checks the producers relation and the callback count; (b) recorded histories validated against Lifecycle.tla with the C14 "
                 "conjuncts (section presence, processed-by once per round trip, callback count). A case is one input under all vectors, or one history.")
@@ -220,7 +220,7 @@ def check_C14(ctx):
     ctx.sample({"id": cases[0]["id"], "runs": [{"flags": x["flags"], "outcome": x["outcome"], "sections": [s["name"] or s["id"] for s in x["sections"]]} for x in cases[0]["runs"][:3]]})
     lifecycle(ctx, "C14", "fixtures,gen:%d" % n, 4 if q else 16)
     ctx.exhaustive = True
-    ctx.notes["exhaustive_over"] = "the 2^5 switch vectors (per input); inputs are samples"
+    ctx.notes["exhaustive_over"] = "the 2^6 switch vectors (per input); inputs are samples"
 
 
 def check_C13(ctx):
@@ -283,7 +283,7 @@ def check_C20(ctx):
 def check_C17(ctx):
     ctx.rule = ("design: Arena.tla model-checked (plain and de-duplicating) with NeverReused, DeadStaysDead, DedupInv, AddReturnsLive, AddFreshIsNew, DeleteIsolated, DeleteOnlyThat, "
                 "IterIsLiveInOrder, GetIsStable; implementation: ALL histories of the bounded length over {add v, find v, delete k, get k, iter} enumerated by TLC (Enum_Arena.tla) plus random "
-                "long histories are replayed on each of the 11 real collections (types, exports, imports, memories, tables, globals, data, elements, funcs, customs, locals) through the public "
+                "long histories are replayed on each of the 11 real collections (types, exports, imports, memories, tables, globals, data, elements, funcs, customs, locals) and on four of them again through their by-name and typed entry points (exports.get_func / get_exported_func / remove, imports.get_func / get_imported_func / remove, customs.remove_raw, typed custom-section ids and get_typed) through the public "
                 "API and every returned value is validated step by step against the actions of Arena.tla, with spec ids bound to real ids at allocation. A case is one (collection, history).")
     q = ctx.quick()
     L = 4 if q else 5
